@@ -370,7 +370,7 @@ EXPAND_INPUTS = {
 
 
 def rule_expand_eval(chk):
-    """apply_macros walked by the finite-map reader on model token lists (eight macro sets, 39 inputs) against textual
+    """apply_macros walked by the finite-map reader on model token lists (ten macro sets, 45 inputs) against textual
     substitution written in the rule (ref_expand): same tokens, or an error exactly where the reference has one
     (argument count, unterminated argument list). True when readable."""
     import interp as I
